@@ -1,0 +1,16 @@
+//go:build verif
+
+// Machine-checked contracts for package template (comment-only; read by /verif/govc).
+
+package template
+
+//@ func TrustedSourceFromConstantDir(dir stringConstant, src TrustedSource, filename string) (r TrustedSource, err error)
+//@   serves C20
+//@   ensures nosep: isnil(err) ==> forall(k, 0, len(filename), filename[k] != 47 && filename[k] != 58)
+//@   ensures notdotdot: isnil(err) ==> filename != ".."
+//@   ensures join: isnil(err) ==> seqeq(r.src, pathjoin3(dir, src.src, filename))
+//@   ensures zero: !isnil(err) ==> len(r.src) == 0
+
+//@ func (t TrustedSource) String() (r string)
+//@   serves C20
+//@   ensures same: sameview(r, t.src)
